@@ -487,6 +487,31 @@ def make_calls(rng):
         return ("token", "jwejson", json.dumps(v), ("set", "multi", b"to-many"))
     calls["jwe.enc.json"] = jwe_json
 
+    # consumers and producers that pass an explicit algorithms= list (a fresh per-call registry is implied)
+    from joserfc.jwk import OctKey
+    k32, k16 = OctKey.import_key(bytes(range(1, 33))), OctKey.import_key(bytes(range(16)))
+    t_hs256 = jws.serialize_compact({"alg": "HS256"}, b"hs256", k32)
+    t_hs512 = jws.serialize_compact({"alg": "HS512"}, b"hs512", k32, algorithms=["HS512"])
+    t_a128kw = jwe.encrypt_compact({"alg": "A128KW", "enc": "A128GCM"}, b"kw", k16)
+    t_dir = jwe.encrypt_compact({"alg": "dir", "enc": "A128GCM"}, b"dir", k16, algorithms=["dir", "A128GCM"])
+    t_jwt = jwt.encode({"alg": "HS384"}, {"iss": "me"}, k32, algorithms=["HS384"])
+
+    def valued(f):
+        return lambda w: ("value", f(w))
+    for tok, tn in ((t_hs256, "hs256"), (t_hs512, "hs512")):
+        for algs in (["HS256"], ["HS512"], ["HS256", "HS512"], []):
+            calls[f"jws.verify.{tn}.algorithms={'+'.join(algs) or 'none'}"] = valued(
+                lambda w, tok=tok, algs=algs: jws.deserialize_compact(tok, w.keys["oct32"], algorithms=list(algs)).payload)
+    for tok, tn in ((t_a128kw, "a128kw"), (t_dir, "dir")):
+        for algs in (["A128KW", "A128GCM"], ["dir", "A128GCM"], ["A128KW", "dir", "A128GCM"]):
+            calls[f"jwe.decrypt.{tn}.algorithms={'+'.join(algs)}"] = valued(
+                lambda w, tok=tok, algs=algs: jwe.decrypt_compact(tok, w.keys["oct16"], algorithms=list(algs)).plaintext)
+    for algs in (["HS384"], ["HS256"]):
+        calls[f"jwt.decode.hs384.algorithms={'+'.join(algs)}"] = valued(
+            lambda w, algs=algs: json.dumps(jwt.decode(t_jwt, w.keys["oct32"], algorithms=list(algs)).claims, sort_keys=True))
+    calls["jws.sign.HS512.algorithms=HS512"] = lambda w: ("token", "jws512", jws.serialize_compact({"alg": "HS512"}, b"p512", w.keys["oct32"], algorithms=["HS512"]),
+                                                         ("oct32", "HS512", b"p512"))
+
     def jwt_enc(w):
         return ("token", "jwt", jwt.encode({"alg": "HS256"}, {"iss": "me", "n": 1}, w.keys["oct32"], registry=w.jws_reg), ("oct32", "HS256", None))
     calls["jwt.encode"] = jwt_enc
@@ -499,6 +524,9 @@ def consume(world, kind, token, src):
     kn = src[0]
     if kind == "jws":
         o = jws.deserialize_compact(token, world.keyset if kn == "set" else world.keys[kn], registry=world.jws_reg)
+        return ("jws", json.dumps(o.protected, sort_keys=True), o.payload)
+    if kind == "jws512":
+        o = jws.deserialize_compact(token, world.keys[kn], algorithms=["HS512"])
         return ("jws", json.dumps(o.protected, sort_keys=True), o.payload)
     if kind == "jwsjson":
         o = jws.deserialize_json(json.loads(token), world.keyset, registry=world.jws_reg)
@@ -524,7 +552,7 @@ def canon(fn):
 
 
 def tamper_token(kind, token, rng):
-    if kind in ("jws", "jwe", "jwt"):
+    if kind in ("jws", "jwe", "jwt", "jws512"):
         parts = token.split(".")
         i = rng.randrange(len(parts))
         if not parts[i]:
@@ -606,11 +634,15 @@ def judge(name, calls, got, iso_world, pool, arg, where):
                       f"{want[0]}:{want[1] if want[0] == 'err' else 'token'}")
     if got[0] == "err":
         return (name + ":" + got[1], None)
+    if got[1][0] == "value":
+        if got[1] != want[1]:
+            return (name, f"{name} on shared objects returns {got[1][1]!r}, on fresh objects {want[1][1]!r}")
+        return (name + ":ok", None)
     _, kind, token, src = got[1]
     back = canon(lambda: consume(iso_world(), kind, token, src))
     if back[0] != "ok":
         return (name, f"token produced by {name} on shared objects does not verify/decrypt on fresh objects: {back[1]}")
-    if kind in ("jws", "jwe") and back[1][2] != src[2]:
+    if kind in ("jws", "jwe", "jws512") and back[1][2] != src[2]:
         return (name, f"token produced by {name} carries {back[1][2]!r}, not {src[2]!r}")
     if kind in ("jwejson", "jwsjson") and back[1][1] != src[2]:
         return (name, f"token produced by {name} carries {back[1][1]!r}")
@@ -724,6 +756,12 @@ API_PAIRS = [
     ("keyset.new", "keyset.new"),
     ("jws.sign.json", "consume:jws.sign.json"),
     ("jwe.enc.RSA-OAEP", "jws.sign.RS256"),
+    ("jws.verify.hs512.algorithms=HS256", "jws.verify.hs512.algorithms=HS512"),
+    ("jws.verify.hs256.algorithms=HS256", "jws.sign.HS512.algorithms=HS512"),
+    ("jws.verify.hs256.algorithms=none", "jws.verify.hs256.algorithms=HS256+HS512"),
+    ("jwe.decrypt.a128kw.algorithms=dir+A128GCM", "jwe.decrypt.dir.algorithms=A128KW+dir+A128GCM"),
+    ("jwe.decrypt.dir.algorithms=A128KW+A128GCM", "jwe.decrypt.a128kw.algorithms=A128KW+A128GCM"),
+    ("jwt.decode.hs384.algorithms=HS256", "jwt.decode.hs384.algorithms=HS384"),
 ]
 
 
@@ -944,7 +982,7 @@ def pair_catalog(rng):
     for name in sorted(calls):
         cat.append((name, ("produce", name)))
         r = canon(lambda: calls[name](iso))
-        if r[0] != "ok":
+        if r[0] != "ok" or r[1][0] != "token":
             continue
         _, kind, token, src = r[1]
         src = tuple(src)
@@ -963,7 +1001,7 @@ def run_spec(spec, calls, world):
 def verdict_of(spec, got):
     """What must be equal between a run on shared and on fresh objects."""
     if spec[0] == "produce":
-        return got[0] if got[0] == "ok" else got
+        return got if got[0] != "ok" or got[1][0] == "value" else "ok"
     return got
 
 
